@@ -30,7 +30,7 @@ CHECKS = {
          "is strictly framed whatever the size change, and the footer position is stable so the invariant holds along any update "
          "sequence; without truncation a proved witness shows a 1..7-byte shrink is unreadable (the repaired defect); the key-merge "
          "rule equals the plain map specification for one update on distinct keys. Model tied to the code by byte-for-byte and "
-         "key-list correspondence over generated update histories; oracle on the real files after every step.",
+         "key-list correspondence over generated update histories; oracle on the real files after every step. Sequence level: any_update_sequence (after any sequence of rewrites the data file is strictly framed at the same offset with the latest footer and the data bytes are unchanged).",
          "Trusted: Lean kernel + standard axioms; POSIX write/truncate semantics (assumed); the Thrift serialiser (C10). ",
          "Lean 4 proof (byte-level model, regenerated I/O sequence) + correspondence", "§6 C16"),
  "C19": ("Lean 4 theorems over the ordered list of filesystem operations of a multi-file append (Impl.Dataset.appendOps): for EVERY crash "
@@ -44,7 +44,7 @@ CHECKS = {
          "groups ++ footer ++ trailer; multi-file append gives new parts numbers strictly above all referenced ones, so no operation "
          "targets an existing data file; categorical read-back equals each row's own label when all dictionaries agree, and a proved "
          "counter-example shows it does not otherwise (known finding). Tied to the code by trace and byte correspondence over append "
-         "histories; oracle: existing bytes/files unchanged and read = original ++ batches in order.",
+         "histories; oracle: existing bytes/files unchanged and read = original ++ batches in order. Sequence level: appends_concatenate (after ANY sequence of appends the content is the previous content followed by every batch in order, the agreement invariant holds and every earlier file keeps its rows).",
          "Trusted: Lean kernel + standard axioms; POSIX write semantics; path text / regex outside the model. Value decode per row group is C01/C03.",
          "Lean 4 proof + trace/byte correspondence over histories", "§6 C07"),
  "C09": ("Lean 4 model of the dataset-edit state machine (append, partition overwrite, row-group removal, two-pass part-file "
@@ -72,7 +72,7 @@ CHECKS = {
          "every n on a non-empty dataset, and (with the loop index initialised - regenerated from the source) also on a dataset "
          "with zero row groups. Tied to the code by predicting the row ids of random access programs; the metamorphic oracle "
          "(partial read == that part of the full read, cell by cell; counts; columns; index choices; file-like, pickle, copy) "
-         "runs on the real code.",
+         "runs on the real code. Program level: program_reads_whole_row_groups (after any chain of slices / picks the handle's row groups are row groups of the dataset and the read is exactly their rows).",
          "Trusted: Lean kernel + standard axioms. Outside the model: value decoding per row group (C01/C03), pandas index objects.",
          "Lean 4 proof (list algebra) + access-program correspondence", "§6 C06"),
  "C13": ("Lean 4 theorems about a code-shaped model of row-level filtering: the evaluation loops of _column_filter compute the OR over "
@@ -140,7 +140,7 @@ CHECKS = {
          "refill) breaks this, and that publishing an equal value with one atomic write does not. The model's classification of "
          "every API operation (writes nothing but memo keys; deriving a handle leaves the parent's shared state equal) is tied to the "
          "code by deep snapshots of the shared metadata before/after each operation run alone; thread pools of 2..16 with a minimal "
-         "switch interval search for a disagreeing schedule on the real code.",
+         "switch interval search for a disagreeing schedule on the real code. noninterference is proved for EVERY schedule and any number of threads (induction over the schedule of the interleaving semantics runSched).",
          "Trusted: Lean kernel + standard axioms; the GIL makes single dict/list operations atomic (assumed); completeness of the "
          "measured write sets. Bytecode-level atomicity and pandas internals are outside the model.",
          "Lean 4 proof (interleaving invariant) + write-set correspondence + schedule search", "§6 C20"),
